@@ -1,7 +1,7 @@
 """C07 — German account numbers are judged by the Bundesbank method of their bank."""
 from __future__ import annotations
 
-from vf import anchors, env, gen, judge
+from vf import anchors, env, gen, judge, scenario
 from vf.lib import Mon, observe
 from vf.ref import data, lookup
 from vf.ref import germany as G
@@ -43,7 +43,41 @@ def plan(tier, seed):
     for i, ch in enumerate(gen.chunk(codes, 8 if tier == "quick" else 32)):
         shards.append({"kind": "api", "codes": ch, "tier": tier, "_name": f"api-{i}"})
     shards.append({"kind": "unlisted", "tier": tier, "_name": "unlisted"})
+    shards.append(synthetic_shard(tier))
     return shards
+
+
+def synthetic_banks():
+    """One synthetic German bank per method of the reference (incl. the methods no bundled bank uses) plus
+    banks with unknown / missing methods: exercises the bank-code -> method dispatch for every method."""
+    used = {e["bank_code"] for e in data.banks() if e.get("country_code") == "DE"}
+    out, n = [], 0
+    for m in sorted(G.METHODS) + ["ZZ", "default", None]:
+        while True:
+            n += 1
+            code = f"990{n:05d}"
+            if code not in used:
+                break
+        e = {"country_code": "DE", "bank_code": code, "bic": "", "name": f"Synthetic {m}", "short_name": f"S{m}", "primary": True}
+        if m is not None:
+            e["checksum_algo"] = m
+        out.append(e)
+    return out
+
+
+def synthetic_shard(tier):
+    banks = synthetic_banks()
+    root = scenario.make_scratch({"bank_registry/zz_synthetic_methods.json": banks})
+    return {"kind": "api", "codes": [b["bank_code"] for b in banks], "tier": tier, "synthetic": True, "per_bank": 40 if tier == "quick" else 1500,
+            "_env": {"SCHWIFTY_REPO": root}, "_scratch": root, "_name": "api-synthetic-methods"}
+
+
+def prepare_replay(shard):
+    if shard.get("synthetic"):
+        root = scenario.make_scratch({"bank_registry/zz_synthetic_methods.json": synthetic_banks()})
+        shard["_env"] = {"SCHWIFTY_REPO": root}
+        shard["_scratch"] = root
+    return shard
 
 
 def accounts(rng, n):
@@ -126,9 +160,10 @@ def run_api(shard, mon, S):
             mon.tally("bank_code_not_8_digits")
             continue
         accs = []
-        for a in accounts(rng, sz["per_bank"]):
+        per_bank = shard.get("per_bank", sz["per_bank"])
+        for a in accounts(rng, per_bank):
             vs = variants(a, rng)
-            accs += [vs[0], rng.choice(vs[1:])] if sz["per_bank"] <= 3 else vs[:4]
+            accs += [vs[0], rng.choice(vs[1:])] if per_bank <= 3 else vs[:4]
         for a in accs:
             want = G.verdict(m, a) if implemented else R.ACCEPT
             text = R.make_iban("DE", code + a)
@@ -154,6 +189,8 @@ def run_api(shard, mon, S):
                 tag = f"api:method_{m}:{kind}" if implemented else "api:unimplemented_method_rejected"
                 mon.viol(tag, w, want, o.brief())
         mon.tally("api_methods_" + ("impl" if implemented else "unimpl"))
+        if shard.get("synthetic"):
+            mon.tally("synthetic_banks")
     mon.tally("bank_codes", len(shard["codes"]))
 
 
